@@ -20,7 +20,7 @@ import (
 // names the innermost function and the fault line; then one line per active
 // call, innermost first, naming the calling function and the line of the call.
 
-var c20kinds = []string{"call statement", "call inside an expression", "method call", "call from a for body", "call from an if branch", "call from a switch case", "call through a function-typed variable", "self-recursion x3 then call", "call after a function literal in the same function", "method call written over two lines (line break after the dot)"}
+var c20kinds = []string{"call statement", "call inside an expression", "method call", "call from a for body", "call from an if branch", "call from a switch case", "call through a function-typed variable", "self-recursion x3 then call", "call after a function literal in the same function", "method call written over two lines (line break after the dot)", "spread call f(xs...) of a variadic function"}
 
 type c20fault struct {
 	name  string
@@ -70,6 +70,7 @@ type c20prog struct {
 	Pad   int   `json:"pad,omitempty"`  // number of unrelated functions declared before the chain (name indexes and line numbers beyond 8 bits)
 	Lit   bool  `json:"lit,omitempty"`  // a function literal precedes the fault in the innermost function
 	Deep  bool  `json:"deep,omitempty"` // the package lives at import path lib/c (directory path differs from the package name)
+	Long  bool  `json:"long,omitempty"` // every line that must be reported starts with a 70000-byte comment (columns beyond 16 bits)
 }
 
 func (p c20prog) word() []int {
@@ -144,6 +145,8 @@ func c20render(p c20prog) (src string, entry string, want []c20frame) {
 		switch {
 		case i > 0 && (word[i-1] == 2 || word[i-1] == 9):
 			emit(fmt.Sprintf("func (t *T) %s() int {", name(i)))
+		case i > 0 && word[i-1] == 10:
+			emit(fmt.Sprintf("func %s(vs ...int) int {", name(i)))
 		case rec:
 			emit(fmt.Sprintf("func %s(n int) int {", name(i)))
 			emit("\tif n > 0 {")
@@ -188,6 +191,9 @@ func c20render(p c20prog) (src string, entry string, want []c20frame) {
 			case 6:
 				emit("\tf := " + name(i+1))
 				callLines[i] = emit("\tx = f()")
+			case 10:
+				emit("\txs := []int{1, 2}")
+				callLines[i] = emit("\tx = " + name(i+1) + "(xs...)")
 			case 9:
 				emit("\tt := &T{n: 1}")
 				emit("\tx = t.")
@@ -258,7 +264,20 @@ func c20render(p c20prog) (src string, entry string, want []c20frame) {
 		}
 		want = append(want, c20frame{qual(i - 1), callLines[i-1]})
 	}
-	return b.String(), "c." + name(0), want
+	src = b.String()
+	if p.Long {
+		lines := strings.Split(src, "\n")
+		pad := "/*" + strings.Repeat("c", 70000) + "*/"
+		done := map[int]bool{}
+		for _, f := range want {
+			if f.line >= 1 && f.line <= len(lines) && !done[f.line] {
+				done[f.line] = true
+				lines[f.line-1] = pad + lines[f.line-1]
+			}
+		}
+		src = strings.Join(lines, "\n")
+	}
+	return src, "c." + name(0), want
 }
 
 // c20adjust: emit returns the last line of the text it wrote; for an expression spanning several lines the expected line
@@ -363,6 +382,15 @@ func c20progs(thorough bool) []c20prog {
 			out = append(out, c20prog{Word: w, Fault: fi, Host: hi, Pad: 400}, c20prog{Word: w, Fault: fi, Host: hi, Lit: true}, c20prog{Word: w, Fault: fi, Host: hi, Pad: 300, Lit: true}, c20prog{Word: w, Fault: fi, Host: hi, Deep: true})
 		}
 	}
+	// reported lines that start with a 70000-byte comment: the column does not fit 16 bits, the line must still be right
+	for _, w := range words {
+		if len(w) > 1 {
+			continue
+		}
+		for _, fi := range []int{0, 4, 13, 16} {
+			out = append(out, c20prog{Word: w, Fault: fi, Host: 0, Long: true})
+		}
+	}
 	// a fault beyond source line 65535 (positions carry 16 bits per field)
 	out = append(out, c20prog{Word: []int{0}, Fault: 4, Host: 0, Pad: 16500}, c20prog{Word: []int{}, Fault: 13, Pad: 16500})
 	// uniform chains of every depth 4..30
@@ -413,6 +441,9 @@ func c20run(r *report.Run) {
 				}
 				if p.Pad > 0 {
 					src = fmt.Sprintf("(%d unrelated functions of 4 lines each declared first; literal=%v)", p.Pad, p.Lit)
+				}
+				if p.Long {
+					src = "(every reported line starts with a 70000-byte comment)"
 				}
 				r.Fail(&report.Case{Kind: "trace", Key: fmt.Sprintf("chain [%s]; fault: %s; host: %s; optimizer=%v\n%s", strings.Join(ks, " -> "), c20faults[p.Fault].name, c20hosts[p.Host], mode == 1, src), Input: map[string]any{"prog": p, "optimize": mode == 1}, Want: wants[i], Got: results[i][mode]})
 				break
